@@ -74,13 +74,20 @@ func drive() {
 		hi := min(lo+30, len(lc))
 		jobs = append(jobs, job{Kind: "lgate", Locals: lc[lo:hi], Base: lo})
 	}
+	if !e.Quick() {
+		// thorough: every cell a second time with the other request method (the cell index
+		// fixes GET/POST by parity; the odd offset flips it and keeps owner tokens unique)
+		for _, j := range append([]job{}, jobs...) {
+			j.Base += 1001
+			jobs = append(jobs, j)
+		}
+	}
 	lib.ParallelMap(len(jobs), 0, func(i int) { d.runJob(jobs[i], "c11", 0) })
 
 	// phase 2: seeded parallel load; superglobal reads are part of it unless an open finding
 	// (whose gate cells were just observed to fail) quarantines them
 	sg := !e.Quarantined("superglobals")
 	e.Extra("load_reads_superglobals", sg)
-	nRounds := e.Pick(50, 2000)
 	per := e.Pick(2, 20)
 	procs := []int{16, 4, 2, 8, 1, 3}
 	type lj struct {
@@ -95,9 +102,9 @@ func drive() {
 			continue
 		}
 		r := e.Rand("load/" + bin)
-		base := 1
+		base, nRounds := 1, e.Pick(50, 1000) // the -race build costs ~10x per request
 		if bin == "c11" {
-			base = 100001
+			base, nRounds = 100001, e.Pick(50, 2000)
 		}
 		var rs []round
 		for i := 0; i < nRounds; i++ {
